@@ -1365,6 +1365,43 @@ def calculator(repo):
     out["res"] = res[env["H_res"].value]
     return CALC_FILE % out
 
+
+END_TO_END = """
+  (* ---- everything translated above, composed: the pathway list that calculate_one_system obtains ---- *)
+  (* one leaf: constructor, the program run by the GENERATED steps, build() with the GENERATED F4n / sign, the population of
+     the GENERATED initial state; None (a raise) contributes nothing *)
+  Definition g_path (Sy : sys) (c : xcall) (ops : list xop) : option pway :=
+    match run_with (g_step Sy) (g_new c) ops with Some l => obs_with g_F4n g_sign g_n0 Sy l | None => None end.
+  Lemma g_path_is_model (Sy : sys) (c : xcall) (ops : list xop) : g_path Sy c ops = xpath Sy c ops.
+  Proof.
+    unfold g_path, xpath. rewrite (run_with_is_xrun Sy (g_step Sy) (g_step_is_model Sy)), g_new_is_model.
+    destruct (xrun Sy (lp_new c) ops) as [l|]; [|reflexivity].
+    apply obs_with_is_lp_obs; [intros d; apply g_F4n_is_model|intros c0 s H; now apply g_sign_is_model|reflexivity].
+  Qed.
+  Definition g_code_leaf (Sy : sys) (c : xcall) (ops : list xop) : list pway := olist (g_path Sy c ops).
+  Lemma g_dispatch_ext {A} (lf lf' : xcall -> list xop -> list A) (Sy : sys) ptp :
+    (forall c ops, lf c ops = lf' c ops) -> g_dispatch lf Sy ptp = g_dispatch lf' Sy ptp.
+  Proof.
+    intros H. unfold g_dispatch.
+    rewrite (g_R1g_ext lf lf' Sy H), (g_R2g_ext lf lf' Sy H), (g_R3g_ext lf lf' Sy H), (g_R4g_ext lf lf' Sy H),
+            (g_R1f_ext lf lf' Sy H), (g_R2f_ext lf lf' Sy H). reflexivity.
+  Qed.
+  Lemma run3T_ext {A} (d d' : string -> option (list A)) tuple : (forall p, d p = d' p) -> run3T d tuple = run3T d' tuple.
+  Proof. intros H. induction tuple as [|p r IH]; cbn [run3T]; [reflexivity|]. now rewrite H, IH. Qed.
+  (* for a system whose only ground state is state 0: the translated generators, dispatched as the calculator requests them,
+     building every pathway with the translated object methods, produce exactly the lists gen6 / gen4 the theorems are about *)
+  Theorem g_code_is_gen6 (Sy : sys) : ground0 Sy -> run3T (g_dispatch (g_code_leaf Sy) Sy) g_types_esa = Some (gen6 Sy).
+  Proof.
+    intros H. rewrite <- (g_esa_runs Sy H). apply run3T_ext. intros p. apply g_dispatch_ext. intros c ops.
+    unfold g_code_leaf, xobj. now rewrite g_path_is_model.
+  Qed.
+  Theorem g_code_is_gen4 (Sy : sys) : ground0 Sy -> run3T (g_dispatch (g_code_leaf Sy) Sy) g_types_noesa = Some (gen4 Sy).
+  Proof.
+    intros H. rewrite <- (g_noesa_runs Sy H). apply run3T_ext. intros p. apply g_dispatch_ext. intros c ops.
+    unfold g_code_leaf, xobj. now rewrite g_path_is_model.
+  Qed.
+"""
+
 HEAD = """(* GENERATED on every run by harness/translate_c12.py from the current source of
    quantarhei/builders/aggregate_spectroscopy.py, quantarhei/spectroscopy/diagramatics.py, labsetup.py, mocktwodcalculator.py.
    Every index, bound, side, constant, operand and condition below is the translation of an expression of the source. *)
@@ -1389,6 +1426,8 @@ GEN_LEMMAS = """
   (* run by the object machine (every raise of add_transition / add_transfer a None), for systems whose only ground state is state 0 *)
   Lemma g_%(t)s_runs (Sy : sys) : ground0 Sy -> g_%(t)s (xobj Sy) Sy = gen_%(t)s_with (mkpath Sy) Sy.
   Proof. intros H. rewrite <- g_%(t)s_is_model. unfold g_%(t)s. gen_runs H. Qed.
+  Lemma g_%(t)s_ext {A} (lf lf' : xcall -> list xop -> list A) (Sy : sys) : (forall c ops, lf c ops = lf' c ops) -> g_%(t)s lf Sy = g_%(t)s lf' Sy.
+  Proof. intros H. unfold g_%(t)s. cbv zeta. repeat first [apply flat_map_ext_all; intro | apply when_cong; [reflexivity|]]. apply H. Qed.
 """
 
 
@@ -1409,8 +1448,9 @@ def static(repo):
     text += orientation(repo)
     what += ["diagramatics.py:liouville_pathway.build (F4n, sign)", "diagramatics.py:liouville_pathway.orientational_averaging (prefactor)",
              "labsetup.py:LabSetup.__init__ (M4)", "labsetup.py:LabSetup.set_pulse_polarizations (e, F4e, F4eM4)"]
+    text += END_TO_END
     text += calculator(repo)
     what += ["mocktwodcalculator.py:MockTwoDResponseCalculator.calculate_pathway (centres, width selection, type / shape dispatch)",
              "mocktwodcalculator.py:MockTwoDResponseCalculator.calculate_one (signal bookkeeping)"]
-    text += "End GenC12.\n"
+    text += "End GenC12.\nPrint Assumptions g_code_is_gen6.\n"
     return text, what
